@@ -384,6 +384,22 @@ def main(ctx):
                 cl.append("lon=%g" % lon)
             return rec.ok(case, outcome="+".join(cl) or "generic", nontrivial=bool(cl), calls=3)
 
+        if kind == "arr" and case[3] == "long":
+            # one long array (lengths at decimal and binary marks: conversions that work in blocks), compared with
+            # the conversion of its first, middle and last elements
+            _, sel, b1950, form, n = case
+            src, dst, name = SEL[sel]
+            lon = (np.arange(n) * 0.0036 * 7.0) % 360.0
+            lat = ((np.arange(n) * 0.0018 * 13.0) % 180.0) - 90.0
+            ao, bo = euler_call(name, lon, lat, b1950)
+            if not check_lonlat(case, rec, "%s on %d points" % (name, n), ao, bo, n):
+                return
+            for i in (0, 1, n // 2, n - 2, n - 1):
+                so, sb = euler_call(name, float(lon[i]), float(lat[i]), b1950)
+                if not (same_bits(so, ao[i:i + 1]) and same_bits(sb, bo[i:i + 1])):
+                    return rec.fail(case, "%s on %d points: element %d differs from the scalar call" % (name, n, i))
+            return rec.ok(case, outcome="long-array", nontrivial=True, calls=6)
+
         if kind == "arr":
             _, sel, b1950, form, pts = case
             src, dst, name = SEL[sel]
@@ -459,6 +475,8 @@ def main(ctx):
             for form in ("flag:numpy-bool", "flag:int"):
                 aunits.append((sel, b1950, form, tuple(windows(pts)[:6])))
             aunits.append((sel, b1950, "ndarray", ((),)))
+            if sel in (1, 4) and not b1950:
+                aunits.append((sel, b1950, "long", (100000, 200000, 99999, 65536)))
 
     def expand_earr(u):
         sel, b1950, form, wins = u
@@ -504,6 +522,25 @@ def main(ctx):
 
     def one_sdss(case, rec):
         kind = case[0]
+        if kind == "long":
+            # long arrays at decimal and binary marks through eq2sdss -> sdss2eq (and eq2xyz -> xyz2eq): every element
+            # must equal its scalar conversion
+            _, n = case
+            ra = (np.arange(n) * 0.0036 * 7.0) % 360.0
+            dec = ((np.arange(n) * 0.0018 * 13.0) % 179.0) - 89.5
+            cl, ce = coords.eq2sdss(ra, dec)
+            r2, d2 = coords.sdss2eq(cl, ce)
+            x, y, z = coords.eq2xyz(ra, dec)
+            if not (_is1d(cl, n) and _is1d(ce, n) and _is1d(r2, n) and _is1d(x, n)):
+                return rec.fail(case, "conversions of %d points did not return arrays of %d elements" % (n, n))
+            e = float(sep(vec(r2, d2), vec(ra, dec)).max())
+            if not e <= TOL_EXACT:
+                return rec.fail(case, "eq2sdss -> sdss2eq on %d points: round trip off by %.3g deg" % (n, e))
+            for i in (0, n // 2, n - 1):
+                scl, sce = coords.eq2sdss(float(ra[i]), float(dec[i]))
+                if not (same_bits(scl, cl[i:i + 1]) and same_bits(sce, ce[i:i + 1])):
+                    return rec.fail(case, "eq2sdss on %d points: element %d differs from the scalar call" % (n, i))
+            return rec.ok(case, outcome="long-array", nontrivial=True, calls=6)
         if kind == "eq":
             _, ra, dec = case
             cl, ce = coords.eq2sdss(ra, dec)
@@ -639,9 +676,12 @@ def main(ctx):
     for form in ("ndarray", "list"):
         sunits += [("arr", form, tuple(ch)) for ch in chunks(windows(sd_pts), 10)]
     sunits += [("pair", sd_pairs[i], tuple(sd_pairs[:i])) for i in range(1, len(sd_pairs))]
+    sunits += [("long", n) for n in (99999, 100000, 100001, 200000, 65536, 1000000)]
 
     def expand_sdss(u):
-        if u[0] in ("eq", "sv"):
+        if u[0] == "long":
+            yield u
+        elif u[0] in ("eq", "sv"):
             for p in u[1]:
                 yield (u[0], p[0], p[1])
         elif u[0] == "arr":
